@@ -12,8 +12,11 @@ from vf.stubs import drive
 
 N = pick(4, 5)
 MAXR = 6
-HOSTS = ["a", "a", "b", "c", "b"]
-URLS = ["gemini://%s/%d" % (HOSTS[i], i) for i in range(N)]
+# node URLs are deliberately not all in canonical spelling (explicit default port, upper-case host,
+# empty path): the client normalises what it puts on the wire, the redirect book-keeping must not
+# be confused by that
+ALL_URLS = ["gemini://a/0", "gemini://a:1965/1", "gemini://B/2", "gemini://c:7/3", "gemini://b"]
+URLS = ALL_URLS[:N]
 # special (non-followable or odd) redirect targets, selected by kind N .. N+6
 SPECIAL = [
     "/relative/target",            # relative reference
@@ -25,6 +28,10 @@ SPECIAL = [
     "gemini://user@a/0",           # user-info (library refuses such URLs)
 ]
 NK = N + len(SPECIAL)
+
+
+class _TooMany(Exception):
+    pass
 
 
 def _client(maxr):
@@ -51,20 +58,23 @@ def graph(nxt: List[int], maxr: int, follow: bool) -> bool:
 
     async def single(url):
         # what the real _get_single does before it connects: parse (may raise ValueError)
+        if len(conns) > maxr + 3:
+            raise _TooMany()               # runaway walk: stop it here, the oracle below reports it
         requested.append(url)
         parse_url(url)
         i = URLS.index(url) if url in URLS else -1
         conns.append(i)
+        wire = parse_url(url).normalized       # what the real _get_single reports as response.url
         if i < 0:
             # a URL outside the graph was actually requested (e.g. the oversized one):
             # the scripted server answers 59
-            return GeminiResponse(59, "bad request", None, url)
+            return GeminiResponse(59, "bad request", None, wire)
         k = nxt[i]
         if k < 0:
-            return GeminiResponse(20, "text/gemini", "body%d" % i, url)
+            return GeminiResponse(20, "text/gemini", "body%d" % i, wire)
         if k < N:
-            return GeminiResponse(30 + (i % 2), URLS[k], None, url)
-        return GeminiResponse(30, SPECIAL[k - N], None, url)
+            return GeminiResponse(30 + (i % 2), URLS[k], None, wire)
+        return GeminiResponse(30, SPECIAL[k - N], None, wire)
 
     c._get_single = single
     # ---- reference walk (the property, written independently) --------------------------
@@ -93,6 +103,8 @@ def graph(nxt: List[int], maxr: int, follow: bool) -> bool:
     # ---- the real code --------------------------------------------------------------------
     got, exc = drive(c.get(URLS[0], follow_redirects=follow))
     ok = True
+    if isinstance(exc, _TooMany):
+        return V(False)
     if any(not u.startswith("gemini://") for u in requested):
         ok = False
     if not follow:
@@ -129,6 +141,57 @@ def graph(nxt: List[int], maxr: int, follow: bool) -> bool:
     return V(ok)
 
 
+# ---- the same walk through the REAL _get_single (scripted connections, TOFU on) ---------------
+RN = 3
+RURLS = ["gemini://a.example/0", "gemini://a.example:1965/1", "gemini://B.example/2"]
+
+
+def graph_real(n0: int, n1: int, n2: int, maxr: int) -> bool:
+    """
+    pre: -1 <= n0 < RN and -1 <= n1 < RN and -1 <= n2 < RN
+    pre: 0 <= maxr <= 3
+    post: _
+    """
+    from vf.clientrun import Env
+    nxt = [n0, n1, n2]
+    env = Env(True)
+    env.client.max_redirects = maxr
+    hosts = [("a.example", 1965), ("a.example", 1965), ("b.example", 1965)]
+    for i in range(RN):
+        line = (parse_url(RURLS[i]).normalized + "\r\n").encode()
+        if nxt[i] < 0:
+            ans = ("20 text/gemini\r\nbody%d" % i).encode()
+        else:
+            ans = ("30 " + RURLS[nxt[i]] + "\r\n").encode()
+        env.answer_for[(hosts[i][0], hosts[i][1], line)] = ans
+    res, exc = env.run(env.client.get(RURLS[0]))
+    # reference walk
+    seen, i, hops, expect = [], 0, 0, None
+    while expect is None:
+        if i in seen:
+            expect = "error"
+            break
+        seen.append(i)
+        if nxt[i] < 0:
+            expect = i
+        else:
+            hops += 1
+            if hops > maxr:
+                expect = "error"
+            else:
+                i = nxt[i]
+    if len(env.conns) > maxr + 1:
+        return V(False)
+    # the pin is checked on every hop: every connection passed through verify/trust before any request byte
+    for t in env.conns:
+        if t.rx_before_verify != 0 or (t.total_rx() > 0 and not env.verified.get(id(t), False)):
+            return V(False)
+    if expect == "error":
+        return V(exc is not None and res is None)
+    return V(exc is None and res is not None and res.status == 20 and res.body == "body%d" % expect
+             and len(env.conns) == len(seen))
+
+
 META = {
     "files": ["src/nauyaca/client/session.py", "src/nauyaca/utils/url.py", "src/nauyaca/protocol/response.py",
               "src/nauyaca/protocol/status.py"],
@@ -145,6 +208,11 @@ META = {
 }
 
 OBLIGATIONS = [
+    Ob("graph_real", graph_real, quick=300, thorough=900,
+       symbolic="redirect graph over 3 URLs in non-canonical spellings (explicit :1965, upper-case host), max_redirects 0..3; "
+                "real _get_single, real client protocol, real TOFU store",
+       functions=["GeminiClient.get", "_get_with_redirects", "_get_single", "GeminiClientProtocol", "TOFUDatabase.verify/trust"],
+       stubs=["scripted peer connections", "ModelSQL", "MiniLoop"], outside=["more than 3 URLs on this path"]),
     Ob("graph", graph, quick=120, thorough=900,
        symbolic="nxt[i] in -1..%d for each of %d nodes (final / 3x->node j / 7 special target forms), "
                 "max_redirects 0..%d, follow flag" % (NK - 1, N, MAXR),
